@@ -7,6 +7,7 @@ package vsim
 
 import (
 	"fmt"
+	"regexp"
 	"sort"
 	"strings"
 	"time"
@@ -86,10 +87,13 @@ type Sess struct {
 	RecvClosed bool
 	read       int // Inbox[:read] already consumed by Take
 	ctl        chan int
+	Dead       chan struct{} // closed when the client side sees its receive channel closed
 	Stalled    bool
 	nextReq    wamp.ID
 	drainDone  bool
 	CliClosed  bool
+	SendTimeouts int
+	awaited      map[int]bool
 	OnRecv     func(s *Sess, m wamp.Message) // optional reactive behaviour, runs in the drainer goroutine
 }
 
@@ -147,7 +151,7 @@ func AllFeatures() wamp.Dict {
 // NewSess creates (but does not attach) a session over the local transport.
 func (w *World) NewSess(name string, realm wamp.URI, local bool, qsize int, hello wamp.Dict) *Sess {
 	cli, rtr := transport.LinkedPeersQSize(qsize)
-	s := &Sess{W: w, Idx: len(w.Sess), Name: name, Realm: realm, Cli: cli, Rtr: rtr, Local: local, QSize: qsize, ctl: make(chan int), Hello: hello}
+	s := &Sess{W: w, Idx: len(w.Sess), Name: name, Realm: realm, Cli: cli, Rtr: rtr, Local: local, QSize: qsize, ctl: make(chan int), Dead: make(chan struct{}), Hello: hello}
 	if !local {
 		s.Rtr = nonLocalPeer{rtr}
 	}
@@ -178,6 +182,7 @@ func (s *Sess) Join() bool {
 	msg, ok := <-s.Cli.Recv()
 	if !ok {
 		s.RecvClosed = true
+		close(s.Dead)
 		return false
 	}
 	switch m := msg.(type) {
@@ -207,6 +212,7 @@ func (s *Sess) drain() {
 			if !ok {
 				s.RecvClosed = true
 				simrt.Log("%s recv closed", s.Name)
+				close(s.Dead)
 				return
 			}
 			s.Inbox = append(s.Inbox, Rcv{Seq: s.W.S.StepCount(), T: s.W.S.Elapsed(), Msg: msg})
@@ -236,14 +242,20 @@ func (s *Sess) drain() {
 // Stall makes the session stop reading (the unresponsive-client fault).
 func (s *Sess) Stall() {
 	if !s.drainDone && !s.Stalled {
-		s.ctl <- ctlStall
+		select {
+		case s.ctl <- ctlStall:
+		case <-s.Dead:
+		}
 	}
 }
 
 // Resume lets a stalled session read again.
 func (s *Sess) Resume() {
 	if !s.drainDone && s.Stalled {
-		s.ctl <- ctlResume
+		select {
+		case s.ctl <- ctlResume:
+		case <-s.Dead:
+		}
 	}
 }
 
@@ -253,10 +265,13 @@ func (s *Sess) Send(m wamp.Message) (ok bool) {
 	if s.CliClosed {
 		return false
 	}
-	simrt.Log("%s -> %s", s.Name, Brief(m))
-	s.Cli.Send() <- m
-	return true
+	return s.TrySendFor(m, SendPatience)
 }
+
+// SendPatience is how long (virtual time) a simulated client waits for the
+// router to take a message before giving up. The router's session handler
+// never blocks on clients, so an expiry means the handler is gone or wedged.
+const SendPatience = 10 * time.Second
 
 // TrySendFor sends, giving up after d of virtual time (router not reading).
 func (s *Sess) TrySendFor(m wamp.Message, d time.Duration) bool {
@@ -269,8 +284,12 @@ func (s *Sess) TrySendFor(m wamp.Message, d time.Duration) bool {
 	select {
 	case s.Cli.Send() <- m:
 		return true
+	case <-s.Dead:
+		simrt.Log("%s send: session dead", s.Name)
+		return false
 	case <-t.C:
 		simrt.Log("%s send timed out", s.Name)
+		s.SendTimeouts++
 		return false
 	}
 }
@@ -361,6 +380,8 @@ func msgFields(m wamp.Message) any {
 	return fmt.Sprintf("%T", m)
 }
 
+var ptrRe = regexp.MustCompile(`0x[0-9a-f]{6,}`)
+
 // CanonVal renders WAMP values deterministically (sorted dict keys).
 func CanonVal(v any) string {
 	var b strings.Builder
@@ -390,6 +411,9 @@ func canon(b *strings.Builder, v any) {
 		}
 		b.WriteByte(']')
 	case string:
+		if strings.Contains(x, "0x") {
+			x = ptrRe.ReplaceAllString(x, "0xPTR")
+		}
 		fmt.Fprintf(b, "%q", x)
 	case wamp.URI:
 		fmt.Fprintf(b, "%q", string(x))
@@ -426,4 +450,32 @@ func canonList(b *strings.Builder, l []any) {
 		canon(b, e)
 	}
 	b.WriteByte(']')
+}
+
+// Await waits (in virtual time, at most max) for a message satisfying pred.
+// With max==0 the message must be there once the system is quiescent at the
+// current instant. Only the matched message is consumed.
+func (s *Sess) Await(max time.Duration, pred func(m wamp.Message) bool) wamp.Message {
+	deadline := s.W.S.Elapsed() + max
+	for {
+		simrt.WaitQuiescent("await")
+		for i := s.read; i < len(s.Inbox); i++ {
+			if !s.awaited[i] && pred(s.Inbox[i].Msg) {
+				if s.awaited == nil {
+					s.awaited = map[int]bool{}
+				}
+				s.awaited[i] = true
+				return s.Inbox[i].Msg
+			}
+		}
+		left := deadline - s.W.S.Elapsed()
+		if left <= 0 || s.RecvClosed {
+			return nil
+		}
+		step := left
+		if step > 5*time.Second {
+			step = 5 * time.Second
+		}
+		time.Sleep(step)
+	}
 }
